@@ -28,6 +28,7 @@ type c12Proc struct {
 	lines  chan string
 	stderr *headTail
 	tier   string
+	slow   int // deadline stretch factor of the child (1 = normal)
 }
 
 // headTail keeps the first and the last 24 KiB written (a Go panic report starts with the message and may be
@@ -63,17 +64,21 @@ func (b *headTail) String() string {
 	return string(b.head) + string(b.tail)
 }
 
-func c12Start(tier string) (*c12Proc, error) {
+// c12Start starts a child; slow > 1 stretches every deadline of the child by that factor (used to confirm a verdict that
+// depends on wall-clock time: on a loaded machine a slow request is not a hung one)
+func c12Start(tier string) (*c12Proc, error) { return c12StartSlow(tier, 1) }
+
+func c12StartSlow(tier string, slow int) (*c12Proc, error) {
 	pr, pw, err := os.Pipe()
 	if err != nil {
 		return nil, err
 	}
 	cmd := exec.Command(os.Args[0], "C12-child", "-tier", tier)
 	cmd.ExtraFiles = []*os.File{pw}
-	p := &c12Proc{cmd: cmd, stderr: &headTail{}, lines: make(chan string, 16), tier: tier}
+	p := &c12Proc{cmd: cmd, stderr: &headTail{}, lines: make(chan string, 16), tier: tier, slow: slow}
 	cmd.Stderr = p.stderr
 	cmd.Stdout = nil // the code under test prints SQL texts to stdout
-	cmd.Env = append(os.Environ(), "GOTRACEBACK=all")
+	cmd.Env = append(os.Environ(), "GOTRACEBACK=all", fmt.Sprintf("C12_SLOW=%d", slow))
 	if p.stdin, err = cmd.StdinPipe(); err != nil {
 		return nil, err
 	}
@@ -163,10 +168,10 @@ func (p *c12Proc) do(cs *c12Case) (*c12Outcome, *c12Crash, error) {
 			p.cmd.Wait() // the child exits by itself after reporting
 		}
 		return &o, nil, nil
-	case <-time.After(60 * time.Second):
+	case <-time.After(time.Duration(max(p.slow, 1)) * 90 * time.Second):
 		p.cmd.Process.Kill()
 		p.cmd.Wait()
-		return &c12Outcome{ID: cs.ID, Outcome: "hang", Dump: "child did not report within 60 s (its own deadline is at most 32 s); killed"}, nil, nil
+		return &c12Outcome{ID: cs.ID, Outcome: "hang", Dump: fmt.Sprintf("child did not report within %d s (its own deadlines add up to at most %d s); killed", 90*max(p.slow, 1), 64*max(p.slow, 1))}, nil, nil
 	}
 }
 
@@ -272,8 +277,14 @@ func c12RunCases(cases []*c12Case, tier string, W int) ([]c12Judged, error) {
 }
 
 // c12Confirm re-runs one case alone in a fresh child (attribution of a crash / leak to the request)
-func c12Confirm(cs *c12Case, tier string) c12Judged {
-	p, err := c12Start(tier)
+func c12Confirm(cs *c12Case, tier string) c12Judged { return c12ConfirmSlow(cs, tier, 1) }
+
+// c12ConfirmSlow: the same with every deadline of the child stretched by `slow`. A verdict that rests on a clock ("no
+// answer within the deadline", "goroutines still there after the settle time") is only reported when the request ALONE,
+// in a fresh child with 10x the time, shows it again: a hung request stays hung whatever the deadline, a request that was
+// merely slow because the machine is busy does not.
+func c12ConfirmSlow(cs *c12Case, tier string, slow int) c12Judged {
+	p, err := c12StartSlow(tier, slow)
 	if err != nil {
 		return c12Judged{cs: cs}
 	}
@@ -326,6 +337,8 @@ func c12Judge(r *h.Result, j c12Judged, tier string, confirm bool) {
 			replay(map[string]any{"crash": cr}))
 	case j.o == nil:
 		r.Count("outcome:skipped-after-repeated-failures")
+	case j.o.Outcome == "hang" && confirm && !c12HangConfirmed(&j, tier):
+		r.Count("outcome:deadline-missed-but-answered-alone-with-10x-time")
 	case j.o.Outcome == "hang" || j.o.Outcome == "memory":
 		r.Count("outcome:" + j.o.Outcome)
 		fam := "hang"
@@ -357,12 +370,35 @@ func c12Judge(r *h.Result, j c12Judged, tier string, confirm bool) {
 		} else if (o.Outcome == "no-response" || o.Outcome == "truncated") && cs.Abort != 0 {
 			r.Violate("C12/crash/"+cs.Endpoint+"/no-response", fmt.Sprintf("%s %s: connection closed without a complete HTTP response", cs.Method, c12Short(cs.Path)), replay(map[string]any{"outcome": o}))
 		}
+		if (len(o.Leaked) > 0 || o.OpenRows > 0) && confirm {
+			if j2 := c12ConfirmSlow(cs, tier, 10); j2.cr == nil && j2.o != nil && j2.o.Outcome != "hang" && len(j2.o.Leaked) == 0 && j2.o.OpenRows == 0 {
+				r.Count("outcome:late-goroutines-gone-alone-with-10x-time")
+				o.Leaked, o.OpenRows = nil, 0
+			}
+		}
 		if len(o.Leaked) > 0 || o.OpenRows > 0 {
 			r.Count("outcome:leak")
 			r.Violate("C12/leak/"+cs.Endpoint, fmt.Sprintf("%s %s: after the request ended %d goroutine(s) never terminate (%s), %d result set(s) stay open", cs.Method, c12Short(cs.Path), len(o.Leaked), strings.Join(o.Leaked, ", "), o.OpenRows),
 				replay(map[string]any{"outcome": o}))
 		}
 	}
+}
+
+// c12HangConfirmed re-runs a request that missed its deadline alone with 10x the time; on confirmation j carries the
+// confirming outcome (or crash)
+func c12HangConfirmed(j *c12Judged, tier string) bool {
+	j2 := c12ConfirmSlow(j.cs, tier, 10)
+	if j2.cr != nil {
+		return true // the request alone kills the child: certainly not "answered"
+	}
+	if j2.o == nil {
+		return true
+	}
+	if j2.o.Outcome == "hang" || j2.o.Outcome == "memory" {
+		j.o = j2.o
+		return true
+	}
+	return false
 }
 
 func c12Short(s string) string {
